@@ -1414,6 +1414,16 @@ def reuse_after_incomplete(rng):
         order = new[:]
         rng.shuffle(order)
         cases.append([old[i] for i in keep] + [other[0], wrapper_line(rng)] + order + [make_message(rng, 3, 1, None, 'B')[0]])
+        # the same with the new message in fragment order and in reverse order (which cell the stale fragment occupies when
+        # the new fragments arrive decides what a loop that resets or restarts a slot does)
+        cases.append([old[i] for i in keep] + [other[0]] + new)
+        cases.append([old[i] for i in keep] + new[::-1] + [other[0]])
+    # a fragment that arrives twice while its message is still open (a repeater echo): X1 X2 X2 S X3, X1 X1 X2, X2 X1 X2 X3
+    x = make_message(rng, 0, 3, sq, ch, bad_checksums=0)
+    y = make_message(rng, 1, 1, None, 'A')
+    cases.append([x[0], x[1], dict(x[1], msg=0), y[0], x[2]])
+    cases.append([x[0], dict(x[0], msg=0), x[1], x[2]])
+    cases.append([x[1], x[0], dict(x[1], msg=0), x[2], y[0]])
     return cases
 
 
